@@ -11,7 +11,7 @@
 From Coq Require Import String.
 From Coq Require Import NArith ZArith List Bool.
 From Cose Require Import Lib.Base Lib.Cbor Lib.CborProofs Model.GoVal Model.CborGo Model.Wire Model.Key Model.MsgLogic Model.Nonce Model.Msg Model.MsgProofs Model.MsgRoundTrip Spec.RFC9052
-     Model.ValueRoundTrip Model.MsgRoundTripFull Model.MsgRoundTripSign Model.MsgRoundTripRecip.
+     Model.ValueRoundTrip Model.MsgRoundTripFull Model.MsgRoundTripSign Model.MsgRoundTripRecip Lib.GoSem Gen.SlicesGen Model.StripProofs.
 Import ListNotations.
 
 Theorem C01_sign1_roundtrip : forall p prot unprot pl ext out pm um,
@@ -205,3 +205,14 @@ Example C01_nonvacuous_mac_recipients :
   | _ => False
   end.
 Proof. exact mac_with_nested_recipients. Qed.
+
+(* ---- the source of the tag handling: the prefix tests at the head of the six UnmarshalCBOR methods are regenerated from
+   the source on every run (Gen/SlicesGen.v) and are the model's strip_prefixes of the kind, for every input: the CWT
+   tag and then the kind's own tag are taken off only when the fixed prefix (tag and array head) is there; so the
+   tagged, untagged and CWT-tagged forms reach the struct decoder as the same bytes (C01_all_forms_alike) *)
+Theorem C01_tag_stripping_source_is_model : forall data,
+  cose_Sign1Message_UnmarshalCBOR_strip data = Ok (strip_prefixes KSign1 data) /\ cose_SignMessage_UnmarshalCBOR_strip data = Ok (strip_prefixes KSign data)
+  /\ cose_Mac0Message_UnmarshalCBOR_strip data = Ok (strip_prefixes KMac0 data) /\ cose_MacMessage_UnmarshalCBOR_strip data = Ok (strip_prefixes KMac data)
+  /\ cose_Encrypt0Message_UnmarshalCBOR_strip data = Ok (strip_prefixes KEnc0 data) /\ cose_EncryptMessage_UnmarshalCBOR_strip data = Ok (strip_prefixes KEnc data).
+Proof. exact (fun data => conj (gen_strip_sign1 data) (conj (gen_strip_sign data) (conj (gen_strip_mac0 data) (conj (gen_strip_mac data) (conj (gen_strip_enc0 data) (gen_strip_enc data)))))). Qed.
+Print Assumptions C01_tag_stripping_source_is_model.
